@@ -402,6 +402,34 @@ def lineFor (prog sep : Str) (c : Completion) : Str :=
 def dirPartOf (p : Str) : Str := uptoLast '/' p
 def filePartOf (p : Str) : Str := afterLast '/' p
 
+/-- char-wise longest common prefix (`lineread::util::longest_common_prefix`, `None` read as "") -/
+def lcp2 : Str → Str → Str
+  | a :: as, b :: bs => if a = b then a :: lcp2 as bs else []
+  | _, _ => []
+def lcpAll : List Str → Str
+  | [] => []
+  | x :: xs => xs.foldl lcp2 x
+
+/-- which completer the dispatch of `CicadaCompleter::complete` reaches for the line: `some forDir` = the path
+completer; `none` = another completer may answer first (not modelled) -/
+def tabDispatch (line : Str) : Option Bool :=
+  let t := line.dropWhile (· = ' ')
+  if line.contains '|' ∨ line.contains '$' ∨ !t.contains ' ' then none
+  else if startsWith t "ssh".toList ∨ startsWith t "scp".toList ∨ startsWith t "make ".toList then none
+  else some (startsWith t "cd ".toList)
+
+/-- the line after TAB: the word under the cursor replaced by the single completion and its suffix, or by the
+longest common prefix of several; `none` = the word start is not a character boundary (the editor's slice panics) -/
+def afterTab (fs : Str → Option (List (Str × Bool))) (envVar : Str → Option Str) (line : Str) (forDir : Bool) : Outcome (Option Str) :=
+  let start := escapedWordStart line
+  match (List.range (line.length + 1)).find? (fun k => utf8Len (line.take k) = start) with
+  | none => .ok none
+  | some k =>
+    (completePath fs envVar (line.drop k) forDir).map (fun cs => match cs with
+      | [] => some line
+      | [c] => some (line.take k ++ c.completion ++ [if c.dirSuffix then '/' else ' '])
+      | _ => some (line.take k ++ lcpAll (cs.map (·.completion))))
+
 end C20D
 
 def answer (stream : String) (f : Array String) : Ans :=
@@ -417,6 +445,44 @@ def answer (stream : String) (f : Array String) : Ans :=
   | "arith" => { m := if isArithmetic (unhex (g 0)) then "1" else "0" }
   | "escpath" => { m := hex (escapePath (unhex (g 0))) }
   | "ews" => { m := toString (escapedWordStart (unhex (g 0))) }
+  | "tab" =>
+    -- env, tree, typed line before TAB, text typed after TAB; then Enter: accepted line (as history stores it) and recorded argv
+    let es := envIn (g 0)
+    let tree := C20D.parseEntries (g 1)
+    let line := unhex (g 2)
+    let after := unhex (g 3)
+    match C20D.tabDispatch line with
+    | none => { m := "UNMODELLED dispatch" }
+    | some forDir =>
+      match C20D.afterTab (C20D.fsOf tree) (fun k => lookup es.env.exported k) line forDir with
+      | .ok none => { m := "PANIC" }
+      | .ok (some l1) =>
+        let final := l1 ++ after
+        if !(parseLineInfo final).complete then { m := "INCOMPLETE|" ++ hex final } else
+        let recs : String := match lineToCmds final with
+          | [item] =>
+            if (parseLine item).any (fun t => t.2.contains '*' ∨ t.2.contains '`') then "UNMODELLED" else
+            (match planOf es.subst (planFuel item) item with
+             | .ok (.ok p) =>
+               let rs := (p.commands.filter (fun c => (c.tokens.head?.map (·.2)) = some "argv".toList)).map (fun c => hexList (c.tokens.map (·.2)))
+               if rs.isEmpty then "none" else ";".intercalate rs
+             | .ok (.error _) => "none"
+             | _ => "UNMODELLED")
+          | [] => "none"
+          | _ => "UNMODELLED"
+        if recs = "UNMODELLED" then { m := "UNMODELLED run" } else
+        let m := "L=" ++ hex (trim final) ++ "|A=" ++ recs
+        -- the entry the typed prefix singles out (path, kind), the context and the prefix: what the program must receive
+        if g 4 = "-" ∨ forDir then { m := m } else
+        let ctx := C20D.parseCtx (g 6)
+        let pre := unhex (g 7)
+        let path := unhex (g 4)
+        let isDir := g 5 = "d"
+        let cmdw := (line.dropWhile (· = ' ')).takeWhile (· ≠ ' ')
+        let cls := C20.classifyCase ctx pre [(path.drop (uptoLast '/' pre).length, isDir)]
+        { m := m, s := "A=" ++ hexList [cmdw, C20.received path isDir], guard := if cls = "-" then "1" else "0", cls := cls }
+      | .err k => { m := "UNMODELLED " ++ k }
+      | _ => { m := "PANIC" }
   | "cmplneeds" =>
     -- which patterns will `expand_glob` hand to the glob crate while the candidates' lines are planned
     let es := envIn (g 0)
